@@ -21,3 +21,815 @@ Proof.
       { apply forallb_forall. intros x Hx. apply is_digit_spec. apply H. exact Hx. }
       congruence.
 Qed.
+
+(* ---------------------------------------------------------------------------------------------------------- *)
+(* strings: split / join                                                                                       *)
+
+Lemma has_dot_false s : has_dot s = false <-> no_dot s.
+Proof.
+  unfold has_dot, no_dot. split.
+  - intros H I. assert (existsb (fun c => c =? dot) s = true) as X.
+    { apply existsb_exists. exists dot. split; [exact I|apply Z.eqb_refl]. } congruence.
+  - intros H. destruct (existsb (fun c => c =? dot) s) eqn:E; [|reflexivity].
+    apply existsb_exists in E. destruct E as (c & I & E). apply Z.eqb_eq in E. subst. contradiction.
+Qed.
+
+Lemma has_dot_true s : has_dot s = true <-> In dot s.
+Proof.
+  unfold has_dot. rewrite existsb_exists. split.
+  - intros (c & I & E). apply Z.eqb_eq in E. subst. exact I.
+  - intros I. exists dot. split; [exact I|apply Z.eqb_refl].
+Qed.
+
+Lemma split_on_nonempty sep s : split_on sep s <> [].
+Proof. destruct s as [|c r]; simpl; [discriminate|]. destruct (c =? sep); [discriminate|]. destruct (split_on sep r); discriminate. Qed.
+
+Lemma split_on_nodot s : no_dot s -> split_on dot s = [s].
+Proof.
+  unfold no_dot. induction s as [|c r IH]; intros H; simpl; [reflexivity|].
+  destruct (c =? dot) eqn:E; [apply Z.eqb_eq in E; subst; exfalso; apply H; left; reflexivity|].
+  rewrite IH; [reflexivity|]. intros I. apply H. right. exact I.
+Qed.
+
+Lemma split_on_app a b : no_dot a -> split_on dot (a ++ dot :: b) = a :: split_on dot b.
+Proof.
+  unfold no_dot. induction a as [|c r IH]; intros H; simpl.
+  - reflexivity.
+  - destruct (c =? dot) eqn:E; [apply Z.eqb_eq in E; subst; exfalso; apply H; left; reflexivity|].
+    rewrite IH; [reflexivity|]. intros I. apply H. right. exact I.
+Qed.
+
+Lemma join_split s : join_with dot (split_on dot s) = s.
+Proof.
+  induction s as [|c r IH]; simpl; [reflexivity|].
+  destruct (c =? dot) eqn:E.
+  - apply Z.eqb_eq in E. subst c. destruct (split_on dot r) as [|h t] eqn:S; [exfalso; exact (split_on_nonempty _ _ S)|].
+    cbn [join_with]. simpl in IH. cbn [app]. f_equal. exact IH.
+  - destruct (split_on dot r) as [|h t] eqn:S; [exfalso; exact (split_on_nonempty _ _ S)|].
+    destruct t as [|h2 t2]; simpl in *; subst; reflexivity.
+Qed.
+
+Lemma split_parts_nodot s p : In p (split_on dot s) -> no_dot p.
+Proof.
+  revert p. induction s as [|c r IH]; intros p; simpl.
+  - intros [<-|[]]. intros [].
+  - destruct (c =? dot) eqn:E.
+    + intros [<-|I]; [intros []|apply IH; exact I].
+    + destruct (split_on dot r) as [|h t] eqn:S.
+      * intros [<-|[]]. intros [X|[]]. apply Z.eqb_neq in E. congruence.
+      * intros [<-|I].
+        -- intros [X|X]; [apply Z.eqb_neq in E; congruence|]. apply (IH h); [left; reflexivity|exact X].
+        -- apply IH. right. exact I.
+Qed.
+
+Lemma split_join l : l <> [] -> Forall no_dot l -> split_on dot (join_with dot l) = l.
+Proof.
+  induction l as [|x r IH]; intros NE F; [congruence|].
+  inversion F as [|? ? Hx Hr]; subst. destruct r as [|y r'].
+  - simpl. apply split_on_nodot. exact Hx.
+  - change (join_with dot (x :: y :: r')) with (x ++ dot :: join_with dot (y :: r')).
+    rewrite split_on_app by exact Hx. rewrite IH; [reflexivity|discriminate|exact Hr].
+Qed.
+
+Lemma list_eqb_refl s : list_eqb s s = true.
+Proof. apply list_eqb_eq. reflexivity. Qed.
+
+Lemma strs_eqb_eq a b : strs_eqb a b = true <-> a = b.
+Proof.
+  revert b. induction a as [|x a IH]; intros [|y b]; simpl; split; intros H; try congruence; try discriminate.
+  - apply andb_true_iff in H. destruct H as [H1 H2]. apply list_eqb_eq in H1. apply IH in H2. congruence.
+  - inversion H; subst. rewrite list_eqb_refl. simpl. apply IH. reflexivity.
+Qed.
+
+Lemma strip_prefix_app pre l : strip_prefix pre (pre ++ l) = Some l.
+Proof. induction pre as [|x r IH]; simpl; [reflexivity|]. rewrite list_eqb_refl. exact IH. Qed.
+
+Lemma strip_prefix_some pre l rest : strip_prefix pre l = Some rest <-> l = pre ++ rest.
+Proof.
+  split.
+  - revert l. induction pre as [|x r IH]; intros l; simpl.
+    + intros H. inversion H. reflexivity.
+    + destruct l as [|y l']; [discriminate|]. destruct (list_eqb x y) eqn:E; [|discriminate].
+      apply list_eqb_eq in E. subst y. intros H. rewrite (IH l' H). reflexivity.
+  - intros ->. apply strip_prefix_app.
+Qed.
+
+Lemma is_prefix_spec a b : is_prefix a b = true <-> exists rest, b = a ++ rest.
+Proof.
+  unfold is_prefix. destruct (strip_prefix a b) as [r|] eqn:E.
+  - apply strip_prefix_some in E. split; [intros _; exists r; exact E|reflexivity].
+  - split; [discriminate|]. intros (r & ->). rewrite strip_prefix_app in E. discriminate.
+Qed.
+
+Lemma last_app_single {A} (l : list A) (x d : A) : last (l ++ [x]) d = x.
+Proof. induction l as [|y r IH]; simpl; [reflexivity|]. destruct (r ++ [x]) eqn:E; [destruct r; discriminate|exact IH]. Qed.
+
+Lemma removelast_app_single {A} (l : list A) (x : A) : removelast (l ++ [x]) = l.
+Proof. rewrite removelast_app by discriminate. simpl. apply app_nil_r. Qed.
+
+(* ---------------------------------------------------------------------------------------------------------- *)
+(* file name -> identity: round trip                                                                           *)
+
+Lemma digits_no_dot s : digits s -> no_dot s.
+Proof. intros [_ H] I. specialize (H _ I). unfold dot in H. lia. Qed.
+
+Definition wf_fields (sp : option str) (short smj smn sfx : str) : Prop :=
+  no_dot short /\ digits smj /\ digits smn /\ no_dot sfx /\ match sp with Some p => digits p | None => True end.
+
+Lemma parse_decimal_digits s : digits s -> parse_decimal s = Some (dec_value s).
+Proof. intros H. apply parse_decimal_some. split; [exact H|reflexivity]. Qed.
+
+Lemma parse_basename_render sp short smj smn sfx :
+  wf_fields sp short smj smn sfx -> parse_basename (render_basename sp short smj smn sfx) = Some (sp, short, smj, smn).
+Proof.
+  intros (Hs & Hmj & Hmn & Hx & Hp). unfold parse_basename, render_basename.
+  apply digits_no_dot in Hmj, Hmn. destruct sp as [p|].
+  - apply digits_no_dot in Hp.
+    rewrite (split_on_app p _ Hp), (split_on_app short _ Hs), (split_on_app smj _ Hmj), (split_on_app smn _ Hmn), (split_on_nodot sfx Hx).
+    reflexivity.
+  - rewrite (split_on_app short _ Hs), (split_on_app smj _ Hmj), (split_on_app smn _ Hmn), (split_on_nodot sfx Hx).
+    reflexivity.
+Qed.
+
+Lemma existsb_has_dot_false l : Forall no_dot l -> existsb has_dot l = false.
+Proof.
+  induction 1 as [|x r Hx Hr IH]; simpl; [reflexivity|].
+  rewrite (proj2 (has_dot_false x) Hx). exact IH.
+Qed.
+
+Lemma parse_rel_render rn ds sp short smj smn sfx :
+  no_dot rn -> Forall no_dot ds -> wf_fields sp short smj smn sfx ->
+  parse_rel rn (ds ++ [render_basename sp short smj smn sfx]) =
+  Some (join_with dot ((rn :: ds) ++ [short]), dec_value smj, dec_value smn, option_map dec_value sp).
+Proof.
+  intros Hrn Hds W. unfold parse_rel. rewrite (proj2 (has_dot_false rn) Hrn).
+  unfold pname. rewrite app_comm_cons, last_app_single, (parse_basename_render _ _ _ _ _ W).
+  destruct W as (Hs & Hmj & Hmn & Hx & Hp).
+  rewrite (parse_decimal_digits _ Hmj), (parse_decimal_digits _ Hmn).
+  rewrite removelast_app_single.
+  assert (existsb has_dot (rn :: ds) = false) as E by (apply existsb_has_dot_false; constructor; assumption).
+  destruct sp as [p|].
+  - rewrite (parse_decimal_digits _ Hp), E. reflexivity.
+  - rewrite E. reflexivity.
+Qed.
+
+(* DSDLDefinition.__init__ on a well-formed path: exactly the encoded name, version and port-ID *)
+Lemma mk_definition_render fs root ds sp short smj smn sfx :
+  let rn := pname root in
+  let file := root ++ ds ++ [render_basename sp short smj smn sfx] in
+  no_dot rn -> Forall no_dot ds -> wf_fields sp short smj smn sfx -> exists_ fs file = true ->
+  mk_definition fs file root =
+  Ok (mkDef file root (join_with dot ((rn :: ds) ++ [short])) (dec_value smj) (dec_value smn) (option_map dec_value sp)).
+Proof.
+  intros rn file Hrn Hds W E. unfold mk_definition. rewrite E. simpl negb. cbv iota.
+  fold rn. rewrite (proj2 (has_dot_false rn) Hrn).
+  unfold file at 1. rewrite strip_prefix_app.
+  rewrite (parse_rel_render rn ds sp short smj smn sfx Hrn Hds W). reflexivity.
+Qed.
+
+(* ... and nothing else is accepted *)
+Lemma parse_basename_inv b sp short smj smn :
+  parse_basename b = Some (sp, short, smj, smn) ->
+  exists sfx, b = render_basename sp short smj smn sfx /\ no_dot short /\ no_dot smj /\ no_dot smn /\ no_dot sfx
+              /\ match sp with Some p => no_dot p | None => True end.
+Proof.
+  unfold parse_basename. intros H.
+  pose proof (join_split b) as J. pose proof (split_parts_nodot b) as ND.
+  pose proof (split_on_nonempty dot b) as NE.
+  set (l := split_on dot b) in *. clearbody l.
+  destruct (exists_last NE) as (rl & sfx & ->). rewrite removelast_app_single in H.
+  destruct rl as [|x1 [|x2 [|x3 [|x4 [|x5 r]]]]]; try discriminate.
+  - injection H as <- <- <- <-. exists sfx. simpl in J. unfold render_basename.
+    repeat split; try (apply ND; simpl; tauto). symmetry. exact J.
+  - injection H as <- <- <- <-. exists sfx. simpl in J. unfold render_basename.
+    repeat split; try (apply ND; simpl; tauto). symmetry. exact J.
+Qed.
+
+Lemma existsb_has_dot_false_inv l : existsb has_dot l = false -> Forall no_dot l.
+Proof.
+  induction l as [|x r IH]; simpl; intros H; [constructor|].
+  apply orb_false_iff in H. destruct H as [H1 H2]. constructor; [apply has_dot_false; exact H1|apply IH; exact H2].
+Qed.
+
+Lemma parse_rel_inv rn rel n mj mn port :
+  parse_rel rn rel = Some (n, mj, mn, port) ->
+  no_dot rn /\ exists ds sp short smj smn sfx,
+    rel = ds ++ [render_basename sp short smj smn sfx] /\ Forall no_dot ds /\ wf_fields sp short smj smn sfx /\
+    n = join_with dot ((rn :: ds) ++ [short]) /\ mj = dec_value smj /\ mn = dec_value smn /\ port = option_map dec_value sp.
+Proof.
+  intros H. assert (Hrn : no_dot rn).
+  { unfold parse_rel in H. destruct (has_dot rn) eqn:E; [discriminate|]. apply has_dot_false. exact E. }
+  split; [exact Hrn|].
+  destruct rel as [|r0 rel'].
+  { (* the root directory itself: its name has no dot, hence fewer than three parts *)
+    exfalso. unfold parse_rel in H. rewrite (proj2 (has_dot_false rn) Hrn) in H. cbv zeta in H.
+    unfold pname in H. simpl last in H. unfold parse_basename in H. rewrite (split_on_nodot rn Hrn) in H. simpl in H. discriminate. }
+  assert (NE : r0 :: rel' <> []) by discriminate.
+  destruct (exists_last NE) as (ds & b & Erel). rewrite Erel in *. clear Erel NE r0 rel'.
+  unfold parse_rel in H. rewrite (proj2 (has_dot_false rn) Hrn) in H. cbv zeta in H.
+  unfold pname in H. rewrite app_comm_cons, last_app_single, removelast_app_single in H.
+  destruct (parse_basename b) as [[[[sp short] smj] smn]|] eqn:PB; [|discriminate].
+  destruct (parse_basename_inv _ _ _ _ _ PB) as (sfx & Eb & Hs & _ & _ & Hx & _).
+  assert (exists p, match sp with Some t => match parse_decimal t with Some v => Some (Some v) | None => None end | None => Some None end = Some p
+                    /\ p = option_map dec_value sp /\ match sp with Some t => digits t | None => True end) as (p & Ep & Epv & Hp).
+  { destruct sp as [t|].
+    - destruct (parse_decimal t) as [v|] eqn:PD; [|discriminate]. apply parse_decimal_some in PD. destruct PD as [D ->].
+      eexists. split; [reflexivity|]. split; [reflexivity|exact D].
+    - eexists. split; [reflexivity|]. split; [reflexivity|exact I]. }
+  rewrite Ep in H.
+  destruct (parse_decimal smj) as [vmj|] eqn:Pmj; [|discriminate].
+  destruct (parse_decimal smn) as [vmn|] eqn:Pmn; [|discriminate].
+  destruct (existsb has_dot (rn :: ds)) eqn:ED; [discriminate|].
+  apply parse_decimal_some in Pmj, Pmn. destruct Pmj as [Dmj ->], Pmn as [Dmn ->].
+  apply existsb_has_dot_false_inv in ED. inversion ED as [|? ? _ Hds]; subst.
+  inversion H; subst. exists ds, sp, short, smj, smn, sfx.
+  split; [reflexivity|]. split; [exact Hds|]. split; [exact (conj Hs (conj Dmj (conj Dmn (conj Hx Hp))))|].
+  repeat split; reflexivity.
+Qed.
+
+Lemma mk_definition_shape fs file root d :
+  mk_definition fs file root = Ok d <->
+  exists_ fs file = true /\
+  exists ds sp short smj smn sfx,
+    file = root ++ ds ++ [render_basename sp short smj smn sfx] /\
+    no_dot (pname root) /\ Forall no_dot ds /\ wf_fields sp short smj smn sfx /\
+    d = mkDef file root (join_with dot ((pname root :: ds) ++ [short])) (dec_value smj) (dec_value smn) (option_map dec_value sp).
+Proof.
+  split.
+  - unfold mk_definition. destruct (exists_ fs file) eqn:E; [|discriminate]. simpl negb. cbv iota.
+    destruct (has_dot (pname root)) eqn:HD; [discriminate|].
+    destruct (strip_prefix root file) as [rel|] eqn:SP; [|discriminate]. apply strip_prefix_some in SP.
+    destruct (parse_rel (pname root) rel) as [[[[n mj] mn] port]|] eqn:PR; [|discriminate].
+    intros H. inversion H; subst d. split; [reflexivity|].
+    destruct (parse_rel_inv _ _ _ _ _ _ PR) as (Hrn & ds & sp & short & smj & smn & sfx & -> & Hds & W & -> & -> & -> & ->).
+    exists ds, sp, short, smj, smn, sfx. split; [exact SP|]. split; [exact Hrn|]. split; [exact Hds|]. split; [exact W|reflexivity].
+  - intros (E & ds & sp & short & smj & smn & sfx & -> & Hrn & Hds & W & ->).
+    apply mk_definition_render; assumption.
+Qed.
+
+(* ---------------------------------------------------------------------------------------------------------- *)
+(* the composite-level checks: source_file_path / source_file_path_to_root point back                          *)
+
+Lemma rfind_dot_none s i acc : no_dot s -> rfind_dot s i acc = acc.
+Proof.
+  unfold no_dot. revert i acc. induction s as [|c r IH]; intros i acc H; simpl; [reflexivity|].
+  destruct (c =? dot) eqn:E; [apply Z.eqb_eq in E; subst; exfalso; apply H; left; reflexivity|].
+  apply IH. intros I. apply H. right. exact I.
+Qed.
+
+Lemma stem_nodot s : no_dot s -> stem s = s.
+Proof. intros H. unfold stem. rewrite (rfind_dot_none s 0 None H). reflexivity. Qed.
+
+Lemma search_up_ok l rp rn :
+  Forall no_dot l -> no_dot rn ->
+  search_up_rev (l ++ rn :: rev rp) (l ++ [rn]) = Some (rp ++ [rn]).
+Proof.
+  intros Hl Hrn. induction Hl as [|c l' Hc Hl' IH].
+  - simpl. rewrite (stem_nodot rn Hrn), list_eqb_refl. rewrite rev_involutive. reflexivity.
+  - cbn [app search_up_rev]. rewrite (stem_nodot c Hc), list_eqb_refl.
+    destruct (l' ++ [rn]) as [|x r] eqn:E; [destruct l'; discriminate|]. exact IH.
+Qed.
+
+Definition version_ok (mj mn : Z) : bool :=
+  (0 <=? mj) && (mj <=? MAX_VERSION_NUMBER) && (0 <=? mn) && (mn <=? MAX_VERSION_NUMBER) && (0 <? mj + mn).
+Definition port_ok (port : option Z) (is_service_type : bool) : bool :=
+  match port with
+  | None => true
+  | Some p => (0 <=? p) && (p <=? (if is_service_type then MAX_SERVICE_ID else MAX_SUBJECT_ID))
+  end.
+Definition name_checks (cs : list str) (mj mn : Z) (port : option Z) (is_service_type : bool) : bool :=
+  forallb check_name cs && negb (MAX_NAME_LENGTH <? Z.of_nat (length (join_with dot cs))) && version_ok mj mn && port_ok port is_service_type.
+
+Lemma join_two_has_dot a b r : has_dot (join_with dot (a :: b :: r)) = true.
+Proof. apply has_dot_true. change (join_with dot (a :: b :: r)) with (a ++ dot :: join_with dot (b :: r)). apply in_or_app. right. left. reflexivity. Qed.
+
+Lemma join_two_nonempty a b r : join_with dot (a :: b :: r) <> [].
+Proof. change (join_with dot (a :: b :: r)) with (a ++ dot :: join_with dot (b :: r)). destruct a; discriminate. Qed.
+
+Lemma match_nonempty {A B} (l : list B) (x y : A) : l <> [] -> match l with [] => x | _ :: _ => y end = y.
+Proof. destruct l; [congruence|reflexivity]. Qed.
+
+(* name components = root name :: directories ++ tail, where tail is [short] or [short; Request/Response] *)
+Lemma composite_init_shape (rp : list comp) (rn : str) (ds tail : list str) (b : str) (root : list comp) (cs : list str)
+      mj mn port (hps ist : bool) :
+  root = rp ++ [rn] ->
+  cs = (rn :: ds) ++ tail ->
+  Forall no_dot cs ->
+  removelast (if hps then removelast cs else cs) = rn :: ds ->
+  tail <> [] ->
+  composite_init (join_with dot cs) mj mn port (root ++ ds ++ [b]) hps ist =
+  if name_checks cs mj mn port ist then Ok (join_with dot cs, root) else Err RInvalid.
+Proof.
+  intros Eroot Ecs0 Hcs Hns Htail. unfold composite_init, name_checks.
+  assert (Hcs2 : exists a b' r, cs = a :: b' :: r).
+  { rewrite Ecs0. destruct tail as [|t0 tr]; [congruence|]. destruct ds as [|d0 dr]; simpl; eauto. }
+  destruct Hcs2 as (a & b' & r & Ecs).
+  assert (NE : join_with dot cs <> []) by (rewrite Ecs; apply join_two_nonempty).
+  rewrite (match_nonempty _ _ _ NE).
+  assert (HD : has_dot (join_with dot cs) = true) by (rewrite Ecs; apply join_two_has_dot).
+  rewrite HD. simpl negb. cbv iota.
+  destruct (MAX_NAME_LENGTH <? Z.of_nat (length (join_with dot cs))) eqn:EL; [simpl negb; rewrite andb_false_r; reflexivity|].
+  rewrite split_join; [|rewrite Ecs; discriminate|exact Hcs].
+  destruct (forallb check_name cs) eqn:EC; [|reflexivity]. simpl negb. cbv iota. cbn [andb negb].
+  replace (removelast (root ++ ds ++ [b])) with (root ++ ds) by (rewrite app_assoc, removelast_app_single; reflexivity).
+  assert (Hns' : (if hps then removelast (removelast cs) else removelast cs) = rn :: ds) by (destruct hps; exact Hns).
+  rewrite Hns'. rewrite Eroot at 1. rewrite rev_app_distr, rev_app_distr. simpl rev at 2. cbn [app].
+  change (rev (rn :: ds)) with (rev ds ++ [rn]).
+  assert (Fds : Forall no_dot (rev ds) /\ no_dot rn).
+  { rewrite Ecs0 in Hcs. apply Forall_app in Hcs. destruct Hcs as [H1 _]. inversion H1; subst. split; [apply Forall_rev; assumption|assumption]. }
+  destruct Fds as [Fds Frn]. rewrite (search_up_ok (rev ds) rp rn Fds Frn). rewrite <- Eroot.
+  unfold version_ok, port_ok.
+  destruct ((0 <=? mj) && (mj <=? MAX_VERSION_NUMBER) && (0 <=? mn) && (mn <=? MAX_VERSION_NUMBER) && (0 <? mj + mn)); [|reflexivity].
+  simpl negb. cbv iota. cbn [andb]. destruct port as [p|]; [|reflexivity].
+  destruct ((0 <=? p) && (p <=? (if ist then MAX_SERVICE_ID else MAX_SUBJECT_ID))); reflexivity.
+Qed.
+
+Lemma join_app_single cs x : cs <> [] -> join_with dot (cs ++ [x]) = join_with dot cs ++ dot :: x.
+Proof.
+  induction cs as [|a r IH]; intros NE; [congruence|]. destruct r as [|b r'].
+  - reflexivity.
+  - change (join_with dot ((a :: b :: r') ++ [x])) with (a ++ dot :: join_with dot ((b :: r') ++ [x])).
+    rewrite IH by discriminate. change (join_with dot (a :: b :: r')) with (a ++ dot :: join_with dot (b :: r')).
+    rewrite <- app_assoc. reflexivity.
+Qed.
+
+Definition W_Request : list Z := [82; 101; 113; 117; 101; 115; 116].
+Definition W_Response : list Z := [82; 101; 115; 112; 111; 110; 115; 101].
+
+Definition msg_checks (cs : list (list Z)) (mj mn : Z) (port : option Z) : bool := name_checks cs mj mn port false.
+Definition svc_checks (cs : list (list Z)) (mj mn : Z) (port : option Z) : bool :=
+  forallb check_name cs && negb (MAX_NAME_LENGTH <? Z.of_nat (length (join_with dot cs)) + 9) && version_ok mj mn && port_ok port true.
+
+Lemma no_dot_word w : forallb (fun c => negb (c =? dot)) w = true -> no_dot w.
+Proof. intros H I. rewrite forallb_forall in H. specialize (H _ I). rewrite Z.eqb_refl in H. discriminate. Qed.
+
+(* a message type read from a well-formed path: accepted iff the names, the version and the port-ID are valid,
+   and then source_file_path / source_file_path_to_root are the file and the root directory it was parsed against *)
+Lemma composite_of_msg rp rn ds short b mj mn port :
+  let root := rp ++ [rn] in
+  let file := root ++ ds ++ [b] in
+  let cs := (rn :: ds) ++ [short] in
+  Forall no_dot cs ->
+  composite_of false (mkDef file root (join_with dot cs) mj mn port) =
+  if msg_checks cs mj mn port then Ok (mkId (join_with dot cs) mj mn port file root) else Err RInvalid.
+Proof.
+  intros root file cs Hcs. unfold composite_of, msg_checks. cbn [d_name d_major d_minor d_port d_file].
+  unfold file. rewrite (composite_init_shape rp rn ds [short] b root cs mj mn port false false eq_refl eq_refl Hcs).
+  - destruct (name_checks cs mj mn port false); reflexivity.
+  - unfold cs. rewrite removelast_app_single. reflexivity.
+  - discriminate.
+Qed.
+
+Lemma composite_of_svc rp rn ds short b mj mn port :
+  let root := rp ++ [rn] in
+  let file := root ++ ds ++ [b] in
+  let cs := (rn :: ds) ++ [short] in
+  Forall no_dot cs ->
+  composite_of true (mkDef file root (join_with dot cs) mj mn port) =
+  if svc_checks cs mj mn port then Ok (mkId (join_with dot cs) mj mn port file root) else Err RInvalid.
+Proof.
+  intros root file cs Hcs. unfold composite_of. cbn [d_name d_major d_minor d_port d_file].
+  assert (NEcs : cs <> []) by (unfold cs; discriminate).
+  assert (Hrq : Forall no_dot ((rn :: ds) ++ [short; W_Request])).
+  { change ((rn :: ds) ++ [short; W_Request]) with ((rn :: ds) ++ [short] ++ [W_Request]). rewrite app_assoc.
+    apply Forall_app. split; [exact Hcs|]. constructor; [apply no_dot_word; reflexivity|constructor]. }
+  assert (Hrs : Forall no_dot ((rn :: ds) ++ [short; W_Response])).
+  { change ((rn :: ds) ++ [short; W_Response]) with ((rn :: ds) ++ [short] ++ [W_Response]). rewrite app_assoc.
+    apply Forall_app. split; [exact Hcs|]. constructor; [apply no_dot_word; reflexivity|constructor]. }
+  assert (Erq : join_with dot cs ++ REQUEST = join_with dot ((rn :: ds) ++ [short; W_Request])).
+  { change ((rn :: ds) ++ [short; W_Request]) with ((rn :: ds) ++ [short] ++ [W_Request]). rewrite app_assoc.
+    fold cs. rewrite (join_app_single cs W_Request NEcs). reflexivity. }
+  assert (Ers : join_with dot cs ++ RESPONSE = join_with dot ((rn :: ds) ++ [short; W_Response])).
+  { change ((rn :: ds) ++ [short; W_Response]) with ((rn :: ds) ++ [short] ++ [W_Response]). rewrite app_assoc.
+    fold cs. rewrite (join_app_single cs W_Response NEcs). reflexivity. }
+  assert (RL : forall x, removelast (removelast ((rn :: ds) ++ [short; x])) = rn :: ds).
+  { intros x. change ((rn :: ds) ++ [short; x]) with ((rn :: ds) ++ [short] ++ [x]). rewrite app_assoc.
+    rewrite removelast_app_single, removelast_app_single. reflexivity. }
+  rewrite Erq, Ers. unfold file.
+  rewrite (composite_init_shape rp rn ds [short; W_Request] b root _ mj mn None true false eq_refl eq_refl Hrq (RL _)) by discriminate.
+  rewrite (composite_init_shape rp rn ds [short; W_Response] b root _ mj mn None true false eq_refl eq_refl Hrs (RL _)) by discriminate.
+  (* lengths and names of the two sections *)
+  assert (LQ : length (join_with dot ((rn :: ds) ++ [short; W_Request])) = (length (join_with dot cs) + 8)%nat).
+  { rewrite <- Erq, app_length. reflexivity. }
+  assert (LS : length (join_with dot ((rn :: ds) ++ [short; W_Response])) = (length (join_with dot cs) + 9)%nat).
+  { rewrite <- Ers, app_length. reflexivity. }
+  assert (FQ : forall x, check_name x = true -> forallb check_name ((rn :: ds) ++ [short; x]) = forallb check_name cs).
+  { intros x Hx. change ((rn :: ds) ++ [short; x]) with ((rn :: ds) ++ [short] ++ [x]). rewrite app_assoc. fold cs.
+    rewrite forallb_app. simpl. rewrite Hx. rewrite !andb_true_r. reflexivity. }
+  unfold name_checks, svc_checks. rewrite (FQ W_Request eq_refl), (FQ W_Response eq_refl), LQ, LS.
+  cbn [port_ok]. rewrite !andb_true_r.
+  destruct (forallb check_name cs) eqn:EC; [|reflexivity]. cbn [andb].
+  destruct (version_ok mj mn) eqn:EV; [|rewrite !andb_false_r; reflexivity]. rewrite !andb_true_r.
+  destruct (MAX_NAME_LENGTH <? Z.of_nat (length (join_with dot cs)) + 9) eqn:E9.
+  - (* too long for the response *)
+    assert ((MAX_NAME_LENGTH <? Z.of_nat (length (join_with dot cs) + 9)) = true) as X.
+    { apply Z.ltb_lt. apply Z.ltb_lt in E9. lia. }
+    rewrite X. destruct (negb (MAX_NAME_LENGTH <? Z.of_nat (length (join_with dot cs) + 8))); reflexivity.
+  - assert ((MAX_NAME_LENGTH <? Z.of_nat (length (join_with dot cs) + 9)) = false) as X9.
+    { apply Z.ltb_ge. apply Z.ltb_ge in E9. lia. }
+    assert ((MAX_NAME_LENGTH <? Z.of_nat (length (join_with dot cs) + 8)) = false) as X8.
+    { apply Z.ltb_ge. apply Z.ltb_ge in E9. lia. }
+    rewrite X8, X9. cbn [negb bind fst snd].
+    rewrite <- Erq. rewrite Erq. rewrite split_join; [|destruct ds; discriminate|exact Hrq].
+    change ((rn :: ds) ++ [short; W_Request]) with ((rn :: ds) ++ [short] ++ [W_Request]). rewrite app_assoc, removelast_app_single.
+    fold cs.
+    rewrite (composite_init_shape rp rn ds [short] b root cs mj mn port false true eq_refl eq_refl Hcs).
+    + unfold name_checks. rewrite EC, EV. cbn [andb].
+      assert ((MAX_NAME_LENGTH <? Z.of_nat (length (join_with dot cs))) = false) as X0.
+      { apply Z.ltb_ge. apply Z.ltb_ge in E9. lia. }
+      rewrite X0. cbn [negb andb]. destruct (port_ok port true); reflexivity.
+    + unfold cs. rewrite removelast_app_single. reflexivity.
+    + discriminate.
+Qed.
+
+(* ---------------------------------------------------------------------------------------------------------- *)
+(* one file, one root: what a reader observes                                                                  *)
+
+Definition identity_of (fs : fsys) (file root : list (list Z)) : res ident :=
+  bind (mk_definition fs file root) (fun d => composite_of (file_is_service fs file) d).
+
+Definition kind_checks (svc : bool) := if svc then svc_checks else msg_checks.
+
+Theorem identity_of_spec fs rp rn file i :
+  let root := rp ++ [rn] in
+  identity_of fs file root = Ok i <->
+  exists_ fs file = true /\
+  exists ds sp short smj smn sfx,
+    file = root ++ ds ++ [render_basename sp short smj smn sfx] /\
+    no_dot rn /\ Forall no_dot ds /\ wf_fields sp short smj smn sfx /\
+    kind_checks (file_is_service fs file) ((rn :: ds) ++ [short]) (dec_value smj) (dec_value smn) (option_map dec_value sp) = true /\
+    i = mkId (join_with dot ((rn :: ds) ++ [short])) (dec_value smj) (dec_value smn) (option_map dec_value sp) file root.
+Proof.
+  intros root. unfold identity_of.
+  assert (PN : pname root = rn) by (unfold root, pname; apply last_app_single).
+  split.
+  - destruct (mk_definition fs file root) as [d|e] eqn:MD; [|discriminate]. cbn [bind]. intros C.
+    apply mk_definition_shape in MD. destruct MD as (E & ds & sp & short & smj & smn & sfx & Ef & Hrn & Hds & W & ->).
+    rewrite PN in *. split; [exact E|]. exists ds, sp, short, smj, smn, sfx.
+    assert (Hcs : Forall no_dot ((rn :: ds) ++ [short])).
+    { apply Forall_app. split; [constructor; assumption|]. constructor; [apply W|constructor]. }
+    rewrite Ef in C at 2.
+    destruct (file_is_service fs file).
+    + unfold root in C. rewrite (composite_of_svc rp rn ds short _ _ _ _ Hcs) in C. fold root in C. rewrite <- Ef in C.
+      destruct (svc_checks _ _ _ _) eqn:K; [|discriminate]. inversion C.
+      split; [exact Ef|]. split; [exact Hrn|]. split; [exact Hds|]. split; [exact W|]. split; [exact K|reflexivity].
+    + unfold root in C. rewrite (composite_of_msg rp rn ds short _ _ _ _ Hcs) in C. fold root in C. rewrite <- Ef in C.
+      destruct (msg_checks _ _ _ _) eqn:K; [|discriminate]. inversion C.
+      split; [exact Ef|]. split; [exact Hrn|]. split; [exact Hds|]. split; [exact W|]. split; [exact K|reflexivity].
+  - intros (E & ds & sp & short & smj & smn & sfx & Ef & Hrn & Hds & W & K & ->).
+    assert (MD := mk_definition_render fs root ds sp short smj smn sfx). cbv zeta in MD. rewrite PN in MD.
+    rewrite <- Ef in MD. rewrite (MD Hrn Hds W E). cbn [bind].
+    assert (Hcs : Forall no_dot ((rn :: ds) ++ [short])).
+    { apply Forall_app. split; [constructor; assumption|]. constructor; [apply W|constructor]. }
+    rewrite Ef at 2. destruct (file_is_service fs file); cbn [kind_checks] in K.
+    + unfold root. rewrite (composite_of_svc rp rn ds short _ _ _ _ Hcs), K. fold root. rewrite <- Ef. reflexivity.
+    + unfold root. rewrite (composite_of_msg rp rn ds short _ _ _ _ Hcs), K. fold root. rewrite <- Ef. reflexivity.
+Qed.
+
+(* ---------------------------------------------------------------------------------------------------------- *)
+(* root inference                                                                                              *)
+
+(* a given root covers the (resolved) target *)
+Definition covers (cwd : list (list Z)) (f : list (list Z)) (r : path) : bool := is_prefix (resolve cwd r) f.
+
+Lemma is_prefix_app_inv pre a b : is_prefix (pre ++ a) (pre ++ b) = true -> is_prefix a b = true.
+Proof.
+  intros H. apply is_prefix_spec in H. destruct H as (rest & H). rewrite <- app_assoc in H. apply app_inv_head in H.
+  apply is_prefix_spec. exists rest. exact H.
+Qed.
+
+Lemma is_prefix_app pre a b : is_prefix a b = true -> is_prefix (pre ++ a) (pre ++ b) = true.
+Proof.
+  intros H. apply is_prefix_spec in H. destruct H as (rest & ->). apply is_prefix_spec. exists rest. rewrite app_assoc. reflexivity.
+Qed.
+
+Lemma relative_to_covers cwd t r rest : relative_to t r = Some rest -> covers cwd (resolve cwd t) r = true.
+Proof.
+  unfold relative_to, covers, resolve. destruct t as [ta tc], r as [ra rc]. cbn [is_abs comps].
+  destruct (Bool.eqb ta ra) eqn:E; [|discriminate]. apply eqb_prop in E. subst ra. intros H.
+  assert (is_prefix rc tc = true) as P. { unfold is_prefix. rewrite H. reflexivity. }
+  destruct ta; [exact P|apply is_prefix_app; exact P].
+Qed.
+
+Lemma covers_relative cwd t r :
+  is_abs t = false -> is_abs r = false -> covers cwd (resolve cwd t) r = true -> exists rest, relative_to t r = Some rest.
+Proof.
+  unfold relative_to, covers, resolve. destruct t as [ta tc], r as [ra rc]. cbn [is_abs comps]. intros -> -> H.
+  apply is_prefix_app_inv in H. cbn [Bool.eqb]. unfold is_prefix in H. destruct (strip_prefix rc tc) as [x|]; [eauto|discriminate].
+Qed.
+
+(* strategy 2 returns the first root of the list that covers the resolved target *)
+Lemma strategy2_unique cwd t roots r0 :
+  let f := resolve cwd t in
+  In r0 roots -> covers cwd f r0 = true ->
+  (forall r, In r roots -> covers cwd f r = true -> resolve cwd r = resolve cwd r0) ->
+  exists p, strategy2 cwd t (Some f) roots = Some p /\ resolve cwd p = resolve cwd r0.
+Proof.
+  intros f. induction roots as [|r rest IH]; intros I C0 U; [destruct I|].
+  cbn [strategy2]. destruct (relative_to t r) as [x|] eqn:RT.
+  - exists r. split; [reflexivity|]. apply U; [left; reflexivity|]. exact (relative_to_covers cwd t r x RT).
+  - fold f. destruct (covers cwd f r) eqn:CR.
+    + (* covered but not relative as pure paths: at least one of the two is absolute *)
+      assert ((is_abs r || is_abs t) = true) as AB.
+      { destruct (is_abs r) eqn:Ar; [reflexivity|]. destruct (is_abs t) eqn:At; [reflexivity|].
+        destruct (covers_relative cwd t r At Ar CR) as (y & Y). congruence. }
+      unfold covers in CR. rewrite AB, CR. cbn [andb]. exists (P true (resolve cwd r)). split; [reflexivity|].
+      cbn [resolve is_abs comps]. apply U; [left; reflexivity|exact CR].
+    + unfold covers in CR. rewrite CR, andb_false_r. apply IH.
+      * destruct I as [->|I]; [unfold covers in C0; congruence|exact I].
+      * exact C0.
+      * intros r' I' C'. apply U; [right; exact I'|exact C'].
+Qed.
+
+Lemma strategy2_none_inv cwd t o roots p :
+  strategy2 cwd t o roots = Some p ->
+  exists r, In r roots /\ ((exists x, relative_to t r = Some x) \/ exists f, o = Some f /\ is_prefix (resolve cwd r) f = true).
+Proof.
+  induction roots as [|r rest IH]; cbn [strategy2]; [discriminate|].
+  destruct (relative_to t r) as [x|] eqn:RT.
+  - intros _. exists r. split; [left; reflexivity|left; eauto].
+  - destruct o as [f|].
+    + destruct ((is_abs r || is_abs t) && is_prefix (resolve cwd r) f) eqn:E.
+      * intros _. exists r. split; [left; reflexivity|]. right. exists f. split; [reflexivity|].
+        apply andb_true_iff in E. apply E.
+      * intros H. destruct (IH H) as (r' & I & X). exists r'. split; [right; exact I|exact X].
+    + intros H. destruct (IH H) as (r' & I & X). exists r'. split; [right; exact I|exact X].
+Qed.
+
+Lemma infer_root_nonempty fs cwd t roots :
+  roots <> [] ->
+  infer_root fs cwd t roots =
+  let resolved := if is_abs t || exists_ fs (resolve cwd t) then Some (resolve cwd t) else None in
+  match strategy2 cwd t resolved roots with
+  | Some r => Ok r
+  | None =>
+    match (if is_abs t then None else strategy3 fs cwd t roots) with
+    | Some r => Ok r
+    | None =>
+      match strategy4 (bare_names roots) (is_abs t) [] (removelast (comps t)) with
+      | Some r => Ok r
+      | None => Err RInvalid
+      end
+    end
+  end.
+Proof. destruct roots; [congruence|reflexivity]. Qed.
+
+Lemma in_nonempty {A} (x : A) l : In x l -> l <> [].
+Proof. destruct l; [intros []|discriminate]. Qed.
+
+(* Designation by root PATHS (absolute or relative to the working directory), target absolute or relative to the
+   working directory: if the target lies under exactly one of the given roots, that root is inferred and the
+   definition is the one of (target, that root) - whatever the spelling, the order and the other roots. *)
+Theorem from_first_in_paths fs cwd t roots r0 :
+  let f := resolve cwd t in
+  (is_abs t = true \/ exists_ fs f = true) ->
+  In r0 roots -> covers cwd f r0 = true ->
+  (forall r, In r roots -> covers cwd f r = true -> resolve cwd r = resolve cwd r0) ->
+  from_first_in fs cwd roots t = mk_definition fs f (resolve cwd r0).
+Proof.
+  intros f EX I C0 U. unfold from_first_in. rewrite (infer_root_nonempty fs cwd t roots (in_nonempty _ _ I)).
+  assert ((is_abs t || exists_ fs (resolve cwd t)) = true) as RS.
+  { destruct EX as [->|E]; [reflexivity|]. fold f. rewrite E. apply orb_true_r. }
+  cbv zeta. rewrite RS.
+  destruct (strategy2_unique cwd t roots r0 I C0 U) as (p & S2 & RP). cbv zeta in S2. rewrite S2. cbn [bind].
+  rewrite RP. unfold covers in C0. unfold f in C0. rewrite C0. cbn [andb].
+  destruct (is_abs t) eqn:At; [reflexivity|]. cbn [orb]. destruct EX as [X|X]; [discriminate|]. unfold f in X. rewrite X. reflexivity.
+Qed.
+
+(* INFERENCE 1: no roots at all, a relative target: the root is the first component of the target *)
+Theorem from_first_in_no_roots fs cwd c rest :
+  exists_ fs (cwd ++ [c]) = true ->
+  from_first_in fs cwd [] (P false (c :: rest)) = mk_definition fs (cwd ++ c :: rest) (cwd ++ [c]).
+Proof.
+  intros E. unfold from_first_in, infer_root. cbn [is_abs comps]. rewrite E. cbn [bind is_abs orb resolve comps parent removelast join app].
+  destruct (is_prefix (cwd ++ [c]) (cwd ++ c :: rest) && exists_ fs (cwd ++ c :: rest)); reflexivity.
+Qed.
+
+(* INFERENCE 4: bare root names; an absolute target none of whose ancestors is covered by a given root path *)
+Lemma strategy4_first names a done pre n post :
+  str_in n names = true -> (forall x, In x pre -> str_in x names = false) ->
+  strategy4 names a done (pre ++ n :: post) = Some (P a (done ++ pre ++ [n])).
+Proof.
+  intros Hn. revert done. induction pre as [|x pre' IH]; intros done Hpre; cbn [app strategy4].
+  - rewrite Hn. reflexivity.
+  - rewrite (Hpre x (or_introl eq_refl)). rewrite IH; [|intros y Iy; apply Hpre; right; exact Iy].
+    rewrite <- app_assoc. reflexivity.
+Qed.
+
+Theorem from_first_in_bare_name fs cwd f roots pre n post b :
+  f = pre ++ n :: post ++ [b] ->
+  roots <> [] ->
+  (forall r, In r roots -> covers cwd f r = false) ->
+  str_in n (bare_names roots) = true ->
+  (forall x, In x pre -> str_in x (bare_names roots) = false) ->
+  from_first_in fs cwd roots (P true f) = mk_definition fs f (pre ++ [n]).
+Proof.
+  intros Ef NE NC Hn Hpre. unfold from_first_in. rewrite (infer_root_nonempty fs cwd (P true f) roots NE).
+  cbv zeta. cbn [is_abs orb resolve comps].
+  destruct (strategy2 cwd (P true f) (Some f) roots) as [p|] eqn:S2.
+  { exfalso. destruct (strategy2_none_inv _ _ _ _ _ S2) as (r & I & [(x & X)|(f' & F' & X)]).
+    - pose proof (relative_to_covers cwd _ _ _ X) as C. cbn [resolve is_abs comps] in C. rewrite (NC r I) in C. discriminate.
+    - inversion F'; subst f'. specialize (NC r I). unfold covers in NC. congruence. }
+  assert (removelast f = pre ++ n :: post) as RL.
+  { rewrite Ef. replace (pre ++ n :: post ++ [b]) with ((pre ++ n :: post) ++ [b]) by (rewrite <- app_assoc; reflexivity).
+    apply removelast_app_single. }
+  rewrite RL, (strategy4_first _ true [] pre n post Hn Hpre). cbn [app bind is_abs orb resolve comps]. reflexivity.
+Qed.
+
+(* INFERENCE 3: a relative target that begins with the name of its root and does not exist relative to the working
+   directory, a root given as a path: if the only place where the walk finds the target is that root, it is inferred
+   and the file is the one below the directory that contains the root *)
+Lemma strategy3_unique fs cwd t roots r0 :
+  In r0 roots ->
+  walk_up fs cwd t (is_abs r0) (rev (comps r0)) = Some r0 ->
+  (forall r p, In r roots -> walk_up fs cwd t (is_abs r) (rev (comps r)) = Some p -> p = r0) ->
+  strategy3 fs cwd t roots = Some r0.
+Proof.
+  induction roots as [|r rest IH]; intros I W U; [destruct I|]. cbn [strategy3].
+  destruct (walk_up fs cwd t (is_abs r) (rev (comps r))) as [p|] eqn:E.
+  - rewrite (U r p (or_introl eq_refl) E). reflexivity.
+  - apply IH.
+    + destruct I as [->|I]; [congruence|exact I].
+    + exact W.
+    + intros r' p I' W'. apply (U r' p); [right; exact I'|exact W'].
+Qed.
+
+Theorem from_first_in_name_relative fs cwd a pre n rest roots :
+  let r0 := P a (pre ++ [n]) in
+  let t := P false (n :: rest) in
+  exists_ fs (cwd ++ n :: rest) = false ->
+  exists_ fs (resolve cwd (P a (pre ++ n :: rest))) = true ->
+  In r0 roots ->
+  (forall r, In r roots -> relative_to t r = None) ->
+  (forall r p, In r roots -> walk_up fs cwd t (is_abs r) (rev (comps r)) = Some p -> p = r0) ->
+  from_first_in fs cwd roots t = mk_definition fs (resolve cwd (P a (pre ++ n :: rest))) (resolve cwd r0).
+Proof.
+  intros r0 t NEx Ex I NR U. unfold from_first_in. rewrite (infer_root_nonempty fs cwd t roots (in_nonempty _ _ I)).
+  assert (At : is_abs t = false) by reflexivity.
+  assert (Rt : resolve cwd t = cwd ++ n :: rest) by reflexivity.
+  cbv zeta. rewrite At, Rt, NEx. cbn [orb].
+  assert (S2 : strategy2 cwd t None roots = None).
+  { destruct (strategy2 cwd t None roots) as [p|] eqn:S; [|reflexivity]. exfalso.
+    destruct (strategy2_none_inv _ _ _ _ _ S) as (r & Ir & [(x & X)|(f' & F' & _)]); [rewrite (NR r Ir) in X; discriminate|discriminate]. }
+  rewrite S2.
+  assert (W0 : walk_up fs cwd t (is_abs r0) (rev (comps r0)) = Some r0).
+  { unfold r0. cbn [is_abs comps]. rewrite rev_app_distr. cbn [rev app walk_up].
+    rewrite rev_involutive. unfold t at 1. cbn [comps hd]. rewrite list_eqb_refl. cbn [andb].
+    unfold parent. rewrite removelast_app_single. unfold join. rewrite At. unfold t. cbn [comps].
+    rewrite Ex. reflexivity. }
+  rewrite (strategy3_unique fs cwd t roots r0 I W0 U). cbn [bind].
+  rewrite andb_false_r. cbn [orb].
+  unfold r0, parent. rewrite removelast_app_single. unfold join. rewrite At. unfold t. cbn [comps]. reflexivity.
+Qed.
+
+(* ---------------------------------------------------------------------------------------------------------- *)
+(* decimal rendering: parse_decimal (render_dec n) = Some n                                                    *)
+
+Definition dstep (acc c : Z) : Z := acc * 10 + (c - 48).
+
+Lemma fold_dstep s a : fold_left dstep s a = a * 10 ^ Z.of_nat (length s) + fold_left dstep s 0.
+Proof.
+  revert a. induction s as [|c r IH]; intros a; cbn [fold_left length].
+  - simpl. lia.
+  - rewrite (IH (dstep a c)), (IH (dstep 0 c)). unfold dstep. rewrite Nat2Z.inj_succ, Z.pow_succ_r by lia. ring.
+Qed.
+
+Lemma render_value fuel n acc :
+  0 <= n < 10 ^ Z.of_nat fuel -> (1 <= fuel)%nat ->
+  fold_left dstep (render_pos_fuel fuel n acc) 0 = n * 10 ^ Z.of_nat (length acc) + fold_left dstep acc 0.
+Proof.
+  revert n acc. induction fuel as [|f IH]; intros n acc Hn Hf; [lia|].
+  cbn [render_pos_fuel]. destruct (n <? 10) eqn:E.
+  - apply Z.ltb_lt in E. rewrite Z.mod_small by lia. cbn [fold_left]. rewrite fold_dstep. unfold dstep. f_equal. ring.
+  - apply Z.ltb_ge in E.
+    assert (1 <= f)%nat as Hf'.
+    { destruct f; [|lia]. simpl in Hn. lia. }
+    rewrite IH; [|split; [apply Z.div_pos; lia|]|exact Hf'].
+    + cbn [length fold_left]. rewrite (fold_dstep acc (dstep 0 _)). unfold dstep.
+      rewrite Nat2Z.inj_succ, Z.pow_succ_r by lia.
+      pose proof (Z.div_mod n 10 ltac:(lia)) as DM. set (q := n / 10) in *. set (m := n mod 10) in *.
+      replace n with (10 * q + m) by lia. ring.
+    + apply Z.div_lt_upper_bound; [lia|]. rewrite Nat2Z.inj_succ, Z.pow_succ_r in Hn by lia. lia.
+Qed.
+
+Lemma render_digits fuel n acc :
+  0 <= n -> (forall c, In c acc -> 48 <= c <= 57) -> forall c, In c (render_pos_fuel fuel n acc) -> 48 <= c <= 57.
+Proof.
+  revert n acc. induction fuel as [|f IH]; intros n acc Hn Ha c; cbn [render_pos_fuel]; [apply Ha|].
+  assert (forall c, In c ((48 + n mod 10) :: acc) -> 48 <= c <= 57) as Ha'.
+  { intros x [<-|I]; [pose proof (Z.mod_pos_bound n 10 ltac:(lia)); lia|apply Ha; exact I]. }
+  destruct (n <? 10); [apply Ha'|]. apply IH; [apply Z.div_pos; lia|exact Ha'].
+Qed.
+
+Lemma render_nonempty fuel n acc : (1 <= fuel)%nat -> render_pos_fuel fuel n acc <> [].
+Proof.
+  revert n acc. induction fuel as [|f IH]; intros n acc Hf; [lia|]. cbn [render_pos_fuel].
+  destruct (n <? 10); [discriminate|]. destruct f; [cbn; discriminate|]. apply IH. lia.
+Qed.
+
+Lemma pow10_log2 n : 0 <= n -> n < 10 ^ Z.of_nat (S (Z.to_nat (Z.log2 n))).
+Proof.
+  intros Hn. rewrite Nat2Z.inj_succ, Z2Nat.id by apply Z.log2_nonneg.
+  destruct (Z.eq_dec n 0) as [->|NZ]; [simpl; lia|].
+  pose proof (Z.log2_spec n ltac:(lia)) as [_ H].
+  assert (2 ^ Z.succ (Z.log2 n) <= 10 ^ Z.succ (Z.log2 n)) by (apply Z.pow_le_mono_l; lia). lia.
+Qed.
+
+Theorem parse_render_dec n : 0 <= n -> parse_decimal (render_dec n) = Some n /\ digits (render_dec n).
+Proof.
+  intros Hn. unfold render_dec.
+  assert (D : digits (render_pos_fuel (S (Z.to_nat (Z.log2 n))) n [])).
+  { split; [apply render_nonempty; lia|]. apply render_digits; [exact Hn|intros c []]. }
+  split; [|exact D]. rewrite (parse_decimal_digits _ D). f_equal. unfold dec_value.
+  change (fun acc c => acc * 10 + (c - 48)) with dstep.
+  rewrite render_value; [simpl; lia| |lia]. split; [exact Hn|apply pow10_log2; exact Hn].
+Qed.
+
+(* ---------------------------------------------------------------------------------------------------------- *)
+(* read_files with one target and one root path: every designation yields the identity of (file, root)        *)
+
+Lemma mk_definition_fields fs file root d : mk_definition fs file root = Ok d -> d_file d = file /\ d_root d = root.
+Proof.
+  unfold mk_definition. destruct (negb (exists_ fs file)); [discriminate|]. destruct (has_dot (pname root)); [discriminate|].
+  destruct (strip_prefix root file); [|discriminate]. destruct (parse_rel (pname root) l) as [[[[? ?] ?] ?]|]; [|discriminate].
+  intros H. inversion H. split; reflexivity.
+Qed.
+
+Lemma strs_eqb_refl a : strs_eqb a a = true.
+Proof. apply strs_eqb_eq. reflexivity. Qed.
+
+Theorem read_files_single fs cwd t r0 :
+  let f := resolve cwd t in
+  let R := resolve cwd r0 in
+  (is_abs t = true \/ exists_ fs f = true) ->
+  covers cwd f r0 = true ->
+  exists_ fs R = true ->
+  (exists ds, definitions_of_namespaces fs [R] = Ok ds) ->          (* no malformed file name below the root *)
+  read_files fs cwd [t] [r0] [] = bind (identity_of fs f R) (fun i => Ok [i]).
+Proof.
+  intros f R EX C ER (ds & DN). unfold read_files. cbn [normalize existsb mapM].
+  rewrite (from_first_in_paths fs cwd t [r0] r0 EX (or_introl eq_refl) C);
+    [|intros r [<-|[]] _; reflexivity].
+  fold f R. unfold identity_of. destruct (mk_definition fs f R) as [d|e] eqn:MD; [|reflexivity].
+  destruct (mk_definition_fields _ _ _ _ MD) as [Df Dr].
+  cbn [bind by_file existsb map app filter]. rewrite Dr. fold R. rewrite ER. cbn [app dedup_dirs filter].
+  rewrite strs_eqb_refl. cbn [negb].
+  unfold lookup_stage. cbn [forallb]. rewrite ER. cbn [andb negb].
+  unfold nested. cbn [existsb]. rewrite strs_eqb_refl. cbn [negb andb orb].
+  rewrite DN. cbn [bind mapM]. rewrite Df.
+  destruct (composite_of (file_is_service fs f) d); reflexivity.
+Qed.
+
+(* hence two designations of the same file under the same root agree, whatever the spellings and working directories *)
+Theorem designations_agree fs cwd cwd' t t' r r' :
+  resolve cwd t = resolve cwd' t' -> resolve cwd r = resolve cwd' r' ->
+  (is_abs t = true \/ exists_ fs (resolve cwd t) = true) ->
+  (is_abs t' = true \/ exists_ fs (resolve cwd' t') = true) ->
+  covers cwd (resolve cwd t) r = true ->
+  exists_ fs (resolve cwd r) = true ->
+  (exists ds, definitions_of_namespaces fs [resolve cwd r] = Ok ds) ->
+  read_files fs cwd [t] [r] [] = read_files fs cwd' [t'] [r'] [].
+Proof.
+  intros Et Er EX EX' C E DN.
+  rewrite (read_files_single fs cwd t r EX C E DN).
+  assert (C' : covers cwd' (resolve cwd' t') r' = true) by (unfold covers in *; rewrite <- Et, <- Er; exact C).
+  rewrite Er in E, DN. rewrite (read_files_single fs cwd' t' r' EX' C' E DN). rewrite Et, Er. reflexivity.
+Qed.
+
+(* ---------------------------------------------------------------------------------------------------------- *)
+(* read_namespace: exactly the identities encoded by the paths of the files below the root                     *)
+
+Lemma mapM_ok {A B} (f : A -> res B) l ys : mapM f l = Ok ys -> Forall2 (fun x y => f x = Ok y) l ys.
+Proof.
+  revert ys. induction l as [|x r IH]; intros ys; cbn [mapM].
+  - intros H. inversion H. constructor.
+  - destruct (f x) as [y|e] eqn:E; [|discriminate]. cbn [bind]. destruct (mapM f r) as [ys'|e]; [|discriminate].
+    cbn [bind]. intros H. inversion H. constructor; [exact E|apply IH; reflexivity].
+Qed.
+
+Lemma Forall2_map_l {A B C} (g : A -> B) (R : B -> C -> Prop) l ys :
+  Forall2 R (map g l) ys <-> Forall2 (fun x y => R (g x) y) l ys.
+Proof.
+  revert ys. induction l as [|x r IH]; intros ys; split; intros H; inversion H; subst; constructor; try assumption; apply IH; assumption.
+Qed.
+
+Theorem read_namespace_identities fs cwd r ids :
+  let R := resolve cwd r in
+  read_namespace fs cwd r [] = Ok ids ->
+  Forall2 (fun g i => identity_of fs g R = Ok i) (globbed fs R) ids.
+Proof.
+  intros R. unfold read_namespace. cbn [normalize map app dedup_dirs filter]. fold R.
+  destruct (negb (forallb (exists_ fs) [R])) eqn:EX; [discriminate|].
+  destruct (nested [R]); [discriminate|].
+  unfold definitions_of_namespaces at 1. cbn [flat_map]. rewrite app_nil_r.
+  destruct (mapM _ (map (fun f => (f, R)) (globbed fs R))) as [defs|e] eqn:MD; [|discriminate]. cbn [bind].
+  apply mapM_ok in MD. apply Forall2_map_l in MD. cbn [fst snd] in MD.
+  destruct defs as [|d0 dr] eqn:ED.
+  - intros H. inversion H. inversion MD. constructor.
+  - rewrite <- ED in *. unfold lookup_stage. rewrite EX.
+    destruct (nested [R]); [discriminate|]. destruct (definitions_of_namespaces fs [R]); [|discriminate]. cbn [bind].
+    intros CM. apply mapM_ok in CM. clear ED d0 dr EX.
+    revert ids CM. induction MD as [|g d gs ds Hg Hrest IH]; intros ids CM; inversion CM; subst; constructor.
+    + unfold identity_of. rewrite Hg. cbn [bind]. destruct (mk_definition_fields _ _ _ _ Hg) as [Df _]. rewrite <- Df. assumption.
+    + apply IH. assumption.
+Qed.
